@@ -13,11 +13,14 @@ pub fn run() -> Result<u64, String> {
     let mut n = 0u64;
     L::self_check()?;
     n += 1;
-    // Shift-JIS units: the harness's idea of their decoding must match the decoder peppi uses
+    // Shift-JIS units: the harness's hand-written table against the encoding_rs crate (NOT against peppi:
+    // a disagreement with peppi is what C05 reports, not a harness error)
     for (bytes, ch) in crate::recorder::SJIS_UNITS {
-        let s = peppi::game::shift_jis::MeleeString::try_from(*bytes).map_err(|e| format!("sjis unit {:?}: {}", bytes, e))?;
-        if s.0 != ch.to_string() {
-            return Err(format!("sjis unit {:?} decodes to {:?}, table says {:?}", bytes, s.0, ch));
+        let s = encoding_rs::SHIFT_JIS
+            .decode_without_bom_handling_and_without_replacement(bytes)
+            .ok_or_else(|| format!("sjis unit {:?}: not decodable", bytes))?;
+        if s != ch.to_string() {
+            return Err(format!("sjis unit {:?} decodes to {:?}, table says {:?}", bytes, s, ch));
         }
         n += 1;
     }
